@@ -108,3 +108,86 @@ Proof.
   split; [lia|]. split; [lia|]. unfold dec_need, dec_bits. rewrite orb_true_iff, !N.ltb_lt. reflexivity.
 Qed.
 End A.
+
+(* ---------- histories (C17): what an object holds is monotone along any calls that keep it ---------- *)
+Definition enc_obj_cap (s : state) : N :=
+  match s_enc s with Some x => ew_cap (e_work x) | None => 0 end.
+Definition dec_obj_cap (s : state) : N :=
+  match s_dec s with Some x => dw_cap (d_work x) | None => 0 end.
+Definition dec_obj_bits (s : state) : N :=
+  match s_dec s with Some x => dw_bits (d_work x) | None => 0 end.
+(* calls that keep the encoder / decoder object (everything except constructing a new one
+   or taking it apart) *)
+Definition keeps_enc (o : op) : bool :=
+  match o with ENew _ _ _ _ _ | ENewW _ _ _ _ _ | EParts => false | _ => true end.
+Definition keeps_dec (o : op) : bool :=
+  match o with DNew _ _ _ _ _ | DNewW _ _ _ _ _ | DParts => false | _ => true end.
+
+Section H.
+Variable junk : N -> N -> N -> N.
+
+Definition steps (s : state) (ops : list op) : state := fold_left (fun s o => fst (step junk s o)) ops s.
+
+Lemma run_steps ops : forall s acc,
+  fst (fold_left (fun '(s, acc) o => let '(s', r) := step junk s o in (s', acc ++ [r])) ops (s, acc)) = steps s ops.
+Proof.
+  induction ops as [|o ops IH]; intros s acc; [reflexivity|].
+  cbn [fold_left steps]. destruct (step junk s o) as [s' r] eqn:E. rewrite IH. cbn [fst]. reflexivity.
+Qed.
+Lemma run_is_steps s ops : fst (run junk s ops) = steps s ops.
+Proof. apply run_steps. Qed.
+
+Lemma step_enc_cap_mono s o : keeps_enc o = true ->
+  enc_obj_cap s <= enc_obj_cap (fst (step junk s o)) /\
+  (s_enc s <> None -> s_enc (fst (step junk s o)) <> None).
+Proof.
+  intros H. unfold step, enc_obj_cap. destruct o; try discriminate H; cbn.
+  - (* EReset *) destruct (s_enc s) as [x|] eqn:Hx; cbn; [|rewrite Hx; split; [lia|congruence]].
+    destruct (enc_make _ _ _ _ _ _) as [[x' a]|err] eqn:E; cbn.
+    + apply (enc_make_cap) in E. split; [lia|congruence].
+    + rewrite Hx. split; [lia|congruence].
+  - (* EAdd *) destruct (s_enc s) as [x|] eqn:Hx; cbn; [|rewrite Hx; split; [lia|congruence]].
+    destruct (enc_add x shard) as [x'|err] eqn:E; cbn.
+    + apply enc_add_cap in E. split; [lia|congruence].
+    + rewrite Hx. split; [lia|congruence].
+  - (* EEncode *) destruct (s_enc s) as [x|] eqn:Hx; cbn; [|rewrite Hx; split; [lia|congruence]].
+    pose proof (enc_encode_cap junk (s_epoch s) x probes) as Hc.
+    destruct (enc_encode junk (s_epoch s) x probes) as [x' r] eqn:E. cbn [fst] in Hc.
+    destruct r; cbn; rewrite ?Hx; split; try lia; congruence.
+  - destruct (dec_make _ _ _ _ _ _) as [[x' a]|err]; cbn; split; try lia; auto.
+  - destruct c; cbn; destruct (dec_make _ _ _ _ _ _) as [[x' a]|err]; cbn; split; try lia; auto.
+  - destruct (s_dec s); cbn; split; try lia; auto.
+  - destruct (s_dec s); cbn; [destruct (dec_make _ _ _ _ _ _) as [[x' a]|err]|]; cbn; split; try lia; auto.
+  - destruct (s_dec s); cbn; [destruct (dec_add_original _ _ _)|]; cbn; split; try lia; auto.
+  - destruct (s_dec s); cbn; [destruct (dec_add_recovery _ _ _)|]; cbn; split; try lia; auto.
+  - destruct (s_dec s); cbn; [destruct (dec_decode _ _ _ _) as [x' r]; destruct r|]; cbn; split; try lia; auto.
+  - split; [lia|auto].
+  - split; [lia|auto].
+  - destruct (oneshot_encode _ _ _ _ _); cbn; split; try lia; auto.
+  - destruct (oneshot_decode _ _ _ _ _ _); cbn; split; try lia; auto.
+Qed.
+
+Lemma steps_enc_cap_mono ops : forall s, forallb keeps_enc ops = true ->
+  enc_obj_cap s <= enc_obj_cap (steps s ops) /\ (s_enc s <> None -> s_enc (steps s ops) <> None).
+Proof.
+  induction ops as [|o ops IH]; intros s H; [split; [cbn; lia|auto]|].
+  cbn [forallb] in H. apply andb_true_iff in H. destruct H as [Ho Hops].
+  cbn [steps fold_left]. destruct (step_enc_cap_mono s o Ho) as [H1 H2].
+  destruct (IH (fst (step junk s o)) Hops) as [H3 H4]. unfold steps in *. split; [lia|auto].
+Qed.
+
+(* the history statement: once an encoder object holds working space for a configuration,
+   then after ANY further calls that keep the object (rounds, resets - failed or not - to any
+   configurations, decoder traffic, one-shot calls) a reset to any configuration needing no
+   more than that never allocates *)
+Theorem enc_history_no_alloc s ops K R sb x x' :
+  s_enc s = Some x -> forallb keeps_enc ops = true -> s_enc (steps s ops) = Some x' ->
+  enc_need (rate_of (e_codec x') K R) K R sb <= ew_cap (e_work x) ->
+  s_alloc (fst (step junk (steps s ops) (EReset K R sb))) = false.
+Proof.
+  intros Hx Hops Hx' Hneed.
+  destruct (s_alloc (fst (step junk (steps s ops) (EReset K R sb)))) eqn:E; [|reflexivity].
+  apply (enc_reset_alloc_only_if_needed junk _ x') in E; [|exact Hx'].
+  destruct (steps_enc_cap_mono ops s Hops) as [Hm _]. unfold enc_obj_cap in Hm. rewrite Hx, Hx' in Hm. lia.
+Qed.
+End H.
